@@ -392,10 +392,9 @@ func (c *Cluster) pushPingMetrics(ctx context.Context) {
 // Alerts returns the last alerts recorded by this cluster peer with the most
 // recent first.
 func (c *Cluster) Alerts() []api.Alert {
+	c.alertsMux.Lock()
 	alerts := make([]api.Alert, len(c.alerts))
 	verifGate("alerts.sized")
-
-	c.alertsMux.Lock()
 	{
 		total := len(alerts)
 		for i, a := range c.alerts {
